@@ -184,6 +184,14 @@ def gen_file_text(kind, graph, problems):
 
 # ----------------------------------------------------------------------------
 
+def set_us(v):
+    """The timedelta (in exact microseconds) an assignment ["set", "life_s"/"idle_s", seconds] stores; None = no limit."""
+    return None if v is None else int(round(v * 1000000))
+
+
+SET_ATTRS = ("max_ops", "thr", "renew", "life_s", "idle_s")
+
+
 class _Clock:
     us = 0   # microseconds since BASE
 
@@ -214,16 +222,27 @@ class C09(Check):
             "takes: 1.5/2.5 s, 45/90 s, 20/30 min, 1..12 h, exactly 1 day, 1 day + 1 s, 25/36 h, 2..30 days (read back from the "
             "constructed object in microseconds); histories of 1..12 calls "
             "(thorough: up to 40) over start, tick(0..3), record_error, heartbeat, check_timeouts, renew(None/0/1/2/5, reset_errors), "
-            "trigger_apoptosis, terminate, reset, clock advance: 0..10 s, sub-second amounts (microseconds), minutes, hours, whole "
+            "trigger_apoptosis, terminate, reset, ASSIGNMENTS to the five public configuration attributes of the live object "
+            "(35% of the random histories: allow_renewal on/off, max_operations 1..12/20/100, error_threshold 1..6, "
+            "max_lifetime / idle_timeout None / zero / any of the limits above), clock advance: 0..10 s, sub-second amounts (microseconds), minutes, hours, whole "
             "days (1..4000), days plus a remainder; steps aimed at a configured limit hit it exactly, one second / one microsecond "
             "short of or past it, a part or a multiple of it, 40% of them with a whole number of days on top (elapsed time >= 1 day "
             "whose remainder modulo 24 h is below / at / above the limit). 12% are 'away' histories: start, some use, one to three long "
-            "absences aimed at the limits, check_timeouts / tick / renew / start / reset after each. ~3% malformed histories (negative "
-            "cost/amount, max_operations 0, threshold 0, the clock stepped backwards). Exhaustive over a 10-call alphabet (start, tick(1), record_error, heartbeat, "
+            "absences aimed at the limits, check_timeouts / tick / renew / start / reset after each. 10% are 'reconfiguration' "
+            "histories: the permission to renew revoked / granted after some use and renewals, then ticks down to senescence and "
+            "renew; max_operations lowered / raised between ticks and renewals; the error threshold moved around the error count; "
+            "a time limit installed / tightened / lifted before or after the clock has run past it, then check_timeouts. "
+            "~3% malformed histories (negative "
+            "cost/amount, max_operations 0 (constructed or assigned), threshold 0, the clock stepped backwards). Exhaustive over a 10-call alphabet (start, tick(1), record_error, heartbeat, "
             "check_timeouts, renew(), trigger_apoptosis, terminate, reset, advance 5 s), every call observed: all histories of depth "
             "<=3 on 2 small configurations, and all of depth <=3 over a 9-call alphabet with clock steps of 25 min, 1 day + 5 min, "
-            "3 days + 1 h on a configuration with lifetime 2 h / idle 45 min (quick); plus all of depth 5 (alphabet without heartbeat) "
-            "on one, of depth 4 on two more configurations and of depth 4 on the days configuration (thorough). "
+            "3 days + 1 h on a configuration with lifetime 2 h / idle 45 min, and all of depth <=3 over a 10-symbol alphabet with 5 "
+            "assignments (start, tick(1), record_error, renew(), reset, allow_renewal False/True, max_operations 1/3, "
+            "error_threshold 1) (quick); plus all of depth 5 (alphabet without heartbeat) "
+            "on one, of depth 4 on two more configurations, of depth 4 on the days configuration, on the assignment alphabet "
+            "and on an 8-symbol alphabet with time-limit assignments (tick, heartbeat, check_timeouts, renew, advance 5 s, "
+            "max_lifetime 5 s, idle_timeout None / 2 s) (thorough). After an assignment the five attributes are read back from the object and compared with the model's "
+            "configuration in force. "
             "Driving variations (invisible to the model, every observation must stay what the model predicts): 35% of the generated "
             "cases run with silent=False (stdout captured), 15% without on_phase_change (transition stream read from get_events()), "
             "50% with a recording on_senescence callback, 50% use the argument defaults (tick(), renew(), trigger_apoptosis(), silent); "
@@ -238,7 +257,10 @@ class C09(Check):
                   "executable model of every public method of Telomere, for an arbitrary depletion/error-rate classifier: legal "
                   "transitions only (per call, chained from the phase before to the phase after), TERMINATED absorbing (reset "
                   "aside), dead phases never tick, tick True iff ACTIVE afterwards, 0<=length<=max, Hayflick potential "
-                  "(#True unit ticks since last renewal + length <= max_operations), renewal refused when disallowed/terminated, "
+                  "(#True unit ticks since last renewal + length <= the max_operations in force at that renewal), renewal refused "
+                  "when disallowed/terminated - the configuration is the one IN FORCE: histories include assignments to the five "
+                  "public configuration attributes of the live object (last assignment wins; a permission revoked on a live object "
+                  "is honoured after any history and ends all extension of life) - "
                   "error-count/error-rate/lifetime/idle limits force SENESCENT (an exceeded lifetime limit stays exceeded over every "
                   "reset-free history with a forward clock of any step size, an exceeded idle limit over every history without "
                   "tick/heartbeat/reset), every call returns (no raise, no hang in the model; "
@@ -261,8 +283,13 @@ class C09(Check):
                "event log (_events), _created_at/_terminated_at, get_status().health_score/time_remaining are not modelled; "
                "the read-only accessors and the console output are exercised (they must return, raise nothing and leave every "
                "later observation as the model predicts without them) but their results are not compared with a model"]
-    ASSUMPTIONS = ["tick costs and renewal amounts are non-negative integers; max_operations >= 0 (theorems about ranges, "
+    ASSUMPTIONS = ["tick costs and renewal amounts are non-negative integers; max_operations >= 0 at construction, > 0 when "
+                   "assigned to a live object (theorems about ranges, "
                    "Hayflick and every-call-returns); the remaining theorems hold for all integers",
+                   "with max_operations reassigned on a live object, 'max' in the range / Hayflick clauses is read as the largest "
+                   "max_operations in force since the telomere was last filled (monitor; the theorems prove the sharper bound: the "
+                   "value in force at that fill); the owner assigns attributes between calls, as plain attribute assignments "
+                   "(max_lifetime / idle_timeout as timedelta or None, as the constructor stores them)",
                    "reset starts a new lifecycle (documented 'for testing'): absorption of TERMINATED is demanded for every other call",
                    "the clock only moves between calls (virtual clock rebinding telomere.datetime), by any amount; the two "
                    "expiry-persistence theorems assume it does not move backwards"]
@@ -403,8 +430,87 @@ class C09(Check):
                 ops.append(rng.choice([["tick", 1], ["renew", None, True], ["check"]]))
         return {"cfg": cfg, "ops": ops}
 
-    def _rand_op(self, rng, malformed, cfg=None):
+    def _rand_set(self, rng, malformed=False, attr=None):
+        """An assignment to one of the five public configuration attributes of the LIVE object (between calls)."""
+        attr = attr or rng.choice(["renew", "renew", "renew", "max_ops", "max_ops", "thr", "life_s", "idle_s"])
+        if attr == "renew":
+            v = rng.random() < 0.35
+        elif attr == "max_ops":
+            v = rng.choice([1, 2, 3, 4, 5, 6, 8, 10, 11, 12, 12, 20, 100])
+            if malformed and rng.random() < 0.5:
+                v = rng.choice([0, 0, -1])
+        elif attr == "thr":
+            v = rng.choice([1, 1, 2, 3, 4, 6])
+            if malformed and rng.random() < 0.3:
+                v = rng.choice([0, -1])
+        elif attr == "life_s":
+            v = rng.choice([None, None, 0] + self.LIFE_SMALL + self.LIFE_SMALL + [1, 2] + self.LIFE_WIDE)
+        else:
+            v = rng.choice([None, None, 0] + self.IDLE_SMALL + self.IDLE_SMALL + [1] + self.IDLE_WIDE)
+        return ["set", attr, v]
+
+    def _reconf_case(self, rng):
+        """The owner reconfigures a live lifecycle: the permission to renew is revoked (or granted) after some use and
+        renew() is called afterwards; max_operations is lowered / raised between ticks and renewals; the error
+        threshold is moved under / over the current error count; a time limit is installed, tightened or lifted
+        while the clock is running, and check_timeouts is called past it."""
+        cfg = self._rand_cfg(rng)
+        k = rng.random()
+        ops = [["start"]] if rng.random() < 0.6 else []
+        if k < 0.45:
+            # permission revoked / granted on the live object, renew afterwards
+            cfg["renew"] = rng.random() < 0.75
+            for _ in range(rng.randint(0, 3)):
+                ops.append(rng.choice([["tick", 1], ["tick", 1], ["err"], ["renew", None, True], ["renew", 1, False]]))
+            ops.append(["set", "renew", not cfg["renew"] if rng.random() < 0.8 else cfg["renew"]])
+            for _ in range(rng.randint(0, cfg["max_ops"] + 1)):
+                ops.append(["tick", rng.choice([1, 1, 1, 2])])
+                if rng.random() < 0.15:
+                    ops.append(rng.choice([["err"], ["check"], ["reset"], ["hb"], self._rand_set(rng)]))
+            ops.append(["renew", rng.choice([None, None, 0, 1, 5]), rng.random() < 0.6])
+            for _ in range(rng.randint(0, 4)):
+                ops.append(rng.choice([["tick", 1], ["tick", 1], ["renew", None, True], ["set", "renew", rng.random() < 0.5],
+                                       ["reset"], ["apop"], ["term"]]))
+        elif k < 0.70:
+            # max_operations moved on a telomere in use
+            for _ in range(rng.randint(0, 4)):
+                ops.append(rng.choice([["tick", 1], ["tick", 1], ["tick", 2], ["renew", None, True]]))
+            for _ in range(rng.randint(1, 3)):
+                ops.append(self._rand_set(rng, attr="max_ops"))
+                for _ in range(rng.randint(0, 5)):
+                    ops.append(rng.choice([["tick", 1], ["tick", 1], ["tick", 1], ["tick", 3], ["renew", None, True],
+                                           ["renew", 2, False], ["reset"], ["err"]]))
+        elif k < 0.82:
+            # error threshold moved around the error count
+            for _ in range(rng.randint(1, 3)):
+                ops.append(rng.choice([["tick", 1], ["tick", 1], ["err"]]))
+            ops.append(self._rand_set(rng, attr="thr"))
+            for _ in range(rng.randint(1, 5)):
+                ops.append(rng.choice([["err"], ["err"], ["tick", 1], ["renew", None, rng.random() < 0.5],
+                                       self._rand_set(rng, attr="thr")]))
+        else:
+            # a time limit installed / tightened / lifted while the clock runs
+            for _ in range(rng.randint(0, 2)):
+                ops.append(rng.choice([["tick", 1], ["hb"], self._rand_adv(rng, cfg)]))
+            for _ in range(rng.randint(1, 3)):
+                st = self._rand_set(rng, attr=rng.choice(["life_s", "idle_s"]))
+                ops.append(st)
+                lim = st[2] or cfg.get(st[1]) or rng.choice([2, 5])
+                if rng.random() < 0.5:
+                    ops.insert(len(ops) - 1, self._limit_walk(rng, [lim]))     # the clock had already run when it was set
+                else:
+                    ops.append(self._limit_walk(rng, [lim]))
+                ops.append(["check"])
+                if rng.random() < 0.5:
+                    ops.append(rng.choice([["renew", None, True], ["tick", 1], ["hb"], ["check"]]))
+        if not ops or ops[0][0] == "set" and rng.random() < 0.5:
+            ops.insert(0, ["tick", 1])
+        return {"cfg": cfg, "ops": ops}
+
+    def _rand_op(self, rng, malformed, cfg=None, reconf=False):
         limits = [x for x in ((cfg or {}).get("life_s"), (cfg or {}).get("idle_s")) if x]
+        if reconf and rng.random() < 0.14:
+            return self._rand_set(rng, malformed)
         if limits and rng.random() < 0.12:
             # walk the clock up to / just short of / past a configured limit
             return self._limit_walk(rng, limits) if rng.random() < 0.6 else ["check"]
@@ -532,8 +638,8 @@ class C09(Check):
                 out.append(self._long_case(rng))     # (last: a first disagreement is then reported on a short case)
                 continue
             k = rng.random()
-            if k < 0.24:
-                case = self._deplete_case(rng) if k < 0.12 else self._away_case(rng)
+            if k < 0.34:
+                case = self._deplete_case(rng) if k < 0.12 else self._away_case(rng) if k < 0.24 else self._reconf_case(rng)
                 if rng.random() < 0.4:
                     case["ops"] = self._with_accessors(rng, case["ops"], 0.1)
                 case["drive"] = self._rand_drive(rng, len(case["ops"]))
@@ -550,7 +656,8 @@ class C09(Check):
                 cfg[rng.choice(["life_s", "idle_s"])] = 0      # a zero limit is "no limit" (falsy)
             top = 12 if (self.tier == "quick" or rng.random() < 0.7) else 40
             ln = rng.randint(1, top)
-            ops = [self._rand_op(rng, malformed, cfg) for _ in range(ln)]
+            reconf = rng.random() < 0.35      # the owner also assigns configuration attributes between the calls
+            ops = [self._rand_op(rng, malformed, cfg, reconf) for _ in range(ln)]
             if rng.random() < 0.5 and ops[0][0] not in ("start", "tick"):
                 ops[0] = ["start"] if rng.random() < 0.5 else ["tick", 1]
             if rng.random() < 0.5:
@@ -580,9 +687,17 @@ class C09(Check):
         # every call is observed, so a history of depth d also checks all its prefixes
         full = self.ALPHABET
         no_hb = [o for o in full if o[0] != "hb"]
-        plan = [(A, [1, 2, 3], full), (B, [1, 2, 3], full), (D, [1, 2, 3], away)]
+        # the owner reconfigures the live object between the calls
+        E = {"max_ops": 2, "thr": 2, "renew": True, "life_s": None, "idle_s": 5}
+        reconf = [["start"], ["tick", 1], ["err"], ["renew", None, True], ["reset"],
+                  ["set", "renew", False], ["set", "renew", True], ["set", "max_ops", 1], ["set", "max_ops", 3],
+                  ["set", "thr", 1]]
+        reconf_time = [["tick", 1], ["hb"], ["check"], ["renew", None, True], ["adv", 5],
+                       ["set", "life_s", 5], ["set", "idle_s", None], ["set", "idle_s", 2]]
+        plan = [(A, [1, 2, 3], full), (B, [1, 2, 3], full), (D, [1, 2, 3], away), (E, [1, 2, 3], reconf)]
         if self.tier != "quick":
-            plan += [(A, [5], no_hb), (B, [4], full), (C, [4], full), (D, [4], away)]
+            plan += [(A, [5], no_hb), (B, [4], full), (C, [4], full), (D, [4], away), (E, [4], reconf),
+                     (E, [1, 2, 3, 4], reconf_time)]
         out = []
         for cfg, depths, alphabet in plan:
             for d in depths:
@@ -667,6 +782,21 @@ class C09(Check):
                     if kind == "adv":
                         _Clock.us += adv_us(o)
                         fn = None
+                    elif kind == "set":
+                        # a plain attribute assignment on the live object, as its owner would write it
+                        if o[1] == "max_ops":
+                            tel.max_operations = o[2]
+                        elif o[1] == "thr":
+                            tel.error_threshold = o[2]
+                        elif o[1] == "renew":
+                            tel.allow_renewal = o[2]
+                        elif o[1] == "life_s":
+                            tel.max_lifetime = None if o[2] is None else _dt.timedelta(microseconds=set_us(o[2]))
+                        elif o[1] == "idle_s":
+                            tel.idle_timeout = None if o[2] is None else _dt.timedelta(microseconds=set_us(o[2]))
+                        else:
+                            raise ValueError(f"unknown attribute {o}")
+                        fn = None
                     elif kind == "q":
                         fn = accessors[o[1]]
                     elif kind == "start":
@@ -717,6 +847,11 @@ class C09(Check):
                     after = snap()
                     tr = stream[n0:] if cb_phase else logged_transitions(last_event)
                     row = [rc] + after + [x for p in tr for x in p]
+                    if kind == "set":
+                        # the five configuration attributes read back from the object
+                        lu, iu = td_us(tel.max_lifetime), td_us(tel.idle_timeout)
+                        row += [tel.max_operations, tel.error_threshold, int(bool(tel.allow_renewal)),
+                                -1 if lu is None else lu, -1 if iu is None else iu]
                     if kind != "q":
                         obs.append(row)
                     elif after != before or tr or raised:
@@ -746,6 +881,11 @@ class C09(Check):
                 ops.append(f"Tick {cz(o[1])}")
             elif k == "renew":
                 ops.append(f"Renew {copt(o[1])} {cbool(o[2])}")
+            elif k == "set":
+                ops.append({"max_ops": lambda v: f"SetMaxOps {cz(v)}", "thr": lambda v: f"SetErrThreshold {cz(v)}",
+                            "renew": lambda v: f"SetAllowRenewal {cbool(v)}",
+                            "life_s": lambda v: f"SetMaxLifetime {copt(set_us(v))}",
+                            "idle_s": lambda v: f"SetIdleTimeout {copt(set_us(v))}"}[o[1]](o[2]))
             else:
                 ops.append({"start": "Start", "err": "RecordError", "hb": "Heartbeat", "check": "CheckTimeouts",
                             "apop": "TriggerApoptosis", "term": "Terminate", "reset": "Reset"}[k])
@@ -779,6 +919,12 @@ class C09(Check):
             return Violation("C09/harness", f"harness error: {trace}")
         cfg = case["cfg"]
         valid = not case.get("malformed")
+        # the configuration IN FORCE: what the constructor was given, then whatever the owner assigned to the live
+        # object since (the property speaks of the configuration, not of the constructor call)
+        cf = {"max_ops": cfg["max_ops"], "thr": cfg["thr"], "renew": cfg["renew"],
+               "life_us": trace["life_us"], "idle_us": trace["idle_us"]}
+        # "within [0, max]" / "no more than max_operations unit ticks" when max_operations was reassigned in between:
+        # the most lenient reading - the largest max_operations in force since the telomere was last filled
         mx = cfg["max_ops"]
         cnt = 0          # unit ticks that reported True since the last renewal / reset
         for i, st in enumerate(trace["steps"]):
@@ -789,6 +935,15 @@ class C09(Check):
                 return Violation("C09/hang", f"{where} did not return within the watchdog time (phase before: {PHN[st['before'][0]]})")
             b, a, tr, rc = st["before"], st["after"], st["tr"], st["ret"]
             pb, pa = b[0], a[0]
+            if kind == "set":
+                # an assignment is not a lifecycle call: the configuration in force changes; everything the property
+                # demands of a call (no transition other than the legal ones - none is legal here -, no silent phase
+                # change, absorption, range, Hayflick) is demanded of it below as well
+                if o[1] in ("life_s", "idle_s"):
+                    cf[o[1][:4] + "_us"] = set_us(o[2])
+                else:
+                    cf[o[1]] = o[2]
+                mx = max(mx, cf["max_ops"])
             if st["raised"] and (valid or st["raised"] != "ZeroDivisionError"):
                 return Violation("C09/raises", f"{where} raised {st['raised']}")
             # legal transitions, chained from the phase before to the phase after
@@ -822,23 +977,27 @@ class C09(Check):
             # Hayflick
             if kind == "reset" or (kind == "renew" and rc == 1):
                 cnt = 0
+                mx = cf["max_ops"]
+                if valid and not (0 <= a[1] <= mx):
+                    return Violation("C09/length-out-of-range", f"{where}: telomere filled to {a[1]}, outside [0, {mx}]")
             elif kind == "tick" and o[1] == 1 and rc == 1:
                 cnt += 1
             if valid and (cnt > mx or cnt + a[1] > mx):
                 return Violation("C09/hayflick", f"{where}: {cnt} unit ticks reported True since the last renewal, length {a[1]}, max_operations {mx}")
             # renewal refused when disallowed or terminated
-            if kind == "renew" and (not cfg["renew"] or pb == T):
+            if kind == "renew" and (not cf["renew"] or pb == T):
                 if rc != 0 or a != b or tr:
-                    return Violation("C09/renew-not-refused", f"{where} (allow_renewal={cfg['renew']}, phase {PHN[pb]}) returned {rc}, state {b} -> {a}")
+                    how = "" if cf["renew"] == cfg["renew"] else " - assigned on the live object"
+                    return Violation("C09/renew-not-refused", f"{where} (allow_renewal={cf['renew']}{how}, phase {PHN[pb]}) returned {rc}, state {b} -> {a}")
             # error limits force senescence
             if kind == "err" and pb == A:
-                hit = a[2] >= cfg["thr"] or (a[3] > 0 and 2 * a[2] >= a[3])
+                hit = a[2] >= cf["thr"] or (a[3] > 0 and 2 * a[2] >= a[3])
                 if hit and (pa != S or rc != 0):
-                    return Violation("C09/error-limit-not-enforced", f"{where}: errors {a[2]} (threshold {cfg['thr']}, operations {a[3]}) but phase {PHN[pa]}, returned {rc}")
+                    return Violation("C09/error-limit-not-enforced", f"{where}: errors {a[2]} (threshold {cf['thr']}, operations {a[3]}) but phase {PHN[pa]}, returned {rc}")
             # time limits force senescence
             if kind == "check" and pb == A:
                 nowus = st["t_us"]
-                life, idle = trace["life_us"], trace["idle_us"]
+                life, idle = cf["life_us"], cf["idle_us"]
                 hit = (life and b[6] >= 0 and nowus - b[6] >= life) or (idle and b[7] >= 0 and nowus - b[7] >= idle)
                 if (life or idle) and (b[6] < 0 or b[7] < 0):
                     return Violation("C09/active-without-start-time", f"{where}: ACTIVE with no start/activity time")
@@ -877,10 +1036,21 @@ class C09(Check):
                                         "<1day" if lim < DAY * 1000000 else ">=1day")
                        + ("" if lim % 1000000 == 0 else "/fractional"))
         day_us = DAY * 1000000
+        renew_now = case["cfg"]["renew"]
         for s in trace["steps"]:
             if s.get("hang"):
                 ks.add("hang")
                 continue
+            if s["op"][0] == "set":
+                ks.add("set=" + s["op"][1])
+                if s["op"][1] == "renew":
+                    if s["op"][2] != renew_now:
+                        ks.add("permission=" + ("granted" if s["op"][2] else "revoked") + "-on-live-object")
+                    renew_now = s["op"][2]
+                if s["op"][1] == "max_ops":
+                    ks.add("max_ops-assigned=" + ("below-length" if s["op"][2] < s["before"][1] else "at-or-above-length"))
+            if s["op"][0] == "renew" and renew_now != case["cfg"]["renew"]:
+                ks.add("renew-after-permission-" + ("granted" if renew_now else "revoked") + ("/True" if s["ret"] == 1 else "/False"))
             if s["op"][0] == "adv":
                 d = adv_us(s["op"])
                 ks.add("clock-step=" + ("backwards" if d < 0 else "0" if d == 0 else "<1min" if d < MIN * 1000000 else
